@@ -89,6 +89,11 @@ func readOps() []readOp {
 			if err := d.Merge(c, ucfg.PathSep("."), ucfg.VarExp); err != nil {
 				return "err"
 			}
+			// ... into a destination that already holds sub-configs at the same keys, with source metadata for the merge
+			d2 := ucfg.MustNewFrom(map[string]interface{}{"n": map[string]interface{}{"zz": 1}, "a": 1}, ucfg.PathSep("."))
+			if err := d2.Merge(c, ucfg.PathSep("."), ucfg.VarExp, ucfg.MetaData(ucfg.Meta{Source: "overlay.yml"})); err != nil {
+				return "err"
+			}
 			return fmt.Sprint(len(d.GetFields()))
 		}},
 		readOp{"use as merge source: embedded (root and the sub-config n) in a map, a list and an ordered struct with a dotted sibling", func(c *ucfg.Config, o []ucfg.Option) string {
@@ -98,7 +103,8 @@ func readOps() []readOp {
 				srcs = append(srcs, n)
 			}
 			for _, src := range srcs {
-				for _, pol := range [][]ucfg.Option{nil, {ucfg.AppendValues}} {
+				// (MetaData: the source of the MERGED settings is recorded in the destination, never in the source)
+				for _, pol := range [][]ucfg.Option{nil, {ucfg.AppendValues, ucfg.MetaData(ucfg.Meta{Source: "overlay.yml"})}} {
 					oo := append([]ucfg.Option{ucfg.PathSep(".")}, pol...)
 					inputs := []interface{}{
 						[]interface{}{src},
